@@ -756,16 +756,18 @@ def _run_worker(job, tag, scratch, timeout=1800):
     return recs, finished, (p.stderr or "")[-1500:], p.returncode
 
 
-def replay_paths(kind, paths, refs, build, scratch, tag, mutant=None, record=True):
+def replay_paths(kind, paths, refs, build, scratch, tag, mutant=None, record=True, refvals=None):
     """paths: list of lists of (method, rep).  Runs them in worker processes (restarting after a crash of
     the interpreter, which is recorded as the outcome of the call in progress).
     -> (list of step lists per path, ref results, problems)"""
     todo = list(enumerate(paths))
     results = {}
-    refvals = {}
+    refvals = dict(refvals or {})
     problems = []
     rounds = 0
-    while todo:
+    first = True
+    while todo or first:
+        first = False
         rounds += 1
         if rounds > 60:
             problems.append("too many worker restarts for kind %s" % kind)
@@ -1006,17 +1008,20 @@ def replay_kind(kind, g, paths, build, scratch, nproc, mutant=None, record=True)
     for (k, m), p in REF_OVERRIDE.items():
         if k == kind and m in g.methods:
             refs[m] = p
-    parts = _chunks(list(paths), nproc)
+    # reference results once per kind (one worker), then the paths in parallel chunks
+    _, refvals, problems = replay_paths(kind, [], refs, build, scratch, "%s-ref" % kind, mutant=mutant, record=False)
+    if problems:
+        return [], refvals, problems
+    parts = _chunks(list(paths), max(1, min(nproc, len(paths) // 20 or 1)))
 
     def one(i):
         return replay_paths(kind, [doubled(p) for p in parts[i]], refs, build, scratch,
-                            "%s-%d" % (kind, i), mutant=mutant, record=record)
+                            "%s-%d" % (kind, i), mutant=mutant, record=record, refvals=refvals)
 
-    out, problems, refvals = [], [], {}
+    out = []
     with cf.ThreadPoolExecutor(max_workers=len(parts)) as ex:
         for i, (res, rv, pr) in enumerate(ex.map(one, range(len(parts)))):
             problems += pr
-            refvals.update(rv)
             for p, steps in zip(parts[i], res):
                 if steps is None:
                     problems.append("path %s of kind %s was not replayed" % (p, kind))
@@ -1147,12 +1152,12 @@ def _run(rep, rng, tier, seed, build, mutant, kinds, maxlen, scratch):
     for kind in kinds:
         g = graphs[kind]
         paths, st = choose_paths(g, maxlen, 100000, rng)
-        variants = 1 if quick else 4
+        variants = 0 if quick else 4
         extra = []
         for _ in range(variants):
             more, _ = choose_paths(g, maxlen, 100000, rng)
             extra += more
-        walks = random_walks(g, maxlen, 30 if quick else 300, rng)
+        walks = random_walks(g, maxlen, 20 if quick else 300, rng)
         seen = set(map(tuple, paths))
         for p in extra + walks:
             if tuple(p) not in seen:
@@ -1235,14 +1240,16 @@ def _run(rep, rng, tier, seed, build, mutant, kinds, maxlen, scratch):
     rep.cov["rule"] = ("one replay per (abstract state, method) pair explored by TLC (edge cover of the dumped graph), "
                        "per distinct trajectory of abstract states (all of them, %s labellings each) and seeded "
                        "random call sequences; every call is made twice; distinct = distinct (kind, call sequence)"
-                       % ("2" if quick else "5"))
+                       % ("1" if quick else "5"))
     rep.cov["exhaustive"] = False
     rep.assumptions += [
         "evaluation calls only; redefinitions between calls are outside the property",
         "methods a model does not support at all (kpanel: kA, cA, strain, non-linear kernels) are not part of Methods(kind)",
         "'freshly defined object' reference of a call that cannot be first today = the same call after the shortest "
         "call sequence the specification says makes it succeed",
-        "results passing through ARPACK (random start vector) are compared on eigenvalues at 2^-%d relative" % TOL,
+        "results passing through ARPACK (random start vector) are compared on eigenvalues only, at 2^-%d relative plus "
+        "%d x the spread of %d reference runs with identical definition and history (the solver's own precision: "
+        "the buckling problems of stiffened bays reproduce only to ~1e-4)" % (TOL, SPREAD_MULT, NREF),
         "bit-identity everywhere else (OMP_NUM_THREADS=1, OPENBLAS_NUM_THREADS=1 in the replay processes)",
         "the extension modules loaded are the ones built from the generated C sources (Cython is not installed)"]
     return rep.finish()
